@@ -13,8 +13,25 @@ header and `program_info_length` fit, and the accessors / `StreamInfoIter` yield
 program descriptor bytes and each stream's type, PID and descriptor bytes exactly as laid out,
 stopping without panic at the first entry that does not fit.
 
-All model results are `R.ok`: no index, slice, `Pid::new` assertion or fuel exhaustion is reachable.
+All model results are `R.ok`: no index, slice or `Pid::new` assertion is reachable.
 The specification (`Ts/Spec/TableSpec.lean`) is written with encoders and `readBits` fields.
+
+Fuel (review C): the model's iterators `patPrograms` / `streamIter` take a fuel argument and return
+`.ok []` when it runs out, so "the result is `R.ok`" alone says nothing about termination.  What
+carries termination is (a) the equality with the fuel-free specification (`pat_entries`,
+`pmt_streams_tile`) and (b) `pat_fuel_irrelevant` / `stream_iter_fuel_irrelevant`: every fuel above
+the buffer length gives the same result, i.e. the fuel the model supplies (`length + 1`) is never
+exhausted.
+
+Readings (review C):
+* `program_info_length` and `ES_info_length` are read as full 12-bit fields (`readBits … 12`), as
+  the code does; the standard says their first two bits "shall be '00'" — a larger value is accepted
+  here (lenient) and simply fails the fit test unless that many bytes are present.
+* `current_next_indicator`, like the Boolean-encoded PES enums, is tied to its Rust variant only by
+  the harness (`Ts/Props/C16Headers.lean`).
+* Error details are not modelled: `pmtFromBytes` returns `none` for `Err(DemuxError::NotEnoughData
+  { field, expected, actual })`.
+* Not tied to a regenerated constant (none exists): the PAT entry size 4.
 -/
 namespace Ts.Props.C16
 open Ts Ts.Spec Ts.Tables Ts.Spec.TableSpec Ts.Lemmas.C16
@@ -135,6 +152,34 @@ theorem pmt_roundtrip (rA pcr rB : Nat) (pd : Bytes) (ss : List StreamEnc)
   · rw [pmtDescriptorBytes_eq _ acc, encodePmt_desc rA pcr rB pd ss hp hd]
   · rw [pmtStreams_eq _ acc, e3, e4]
   · rw [e3, e4]
+
+/-! ### fuel is never exhausted -/
+
+/-- `ProgramIter`: every fuel greater than the body length gives the result of `patProgramsAll`
+(which supplies `length + 1`), and one more unit of fuel changes nothing.  Hypothesis:
+`body.length < fuel` (each step consumes 4 bytes, so this is generous). -/
+theorem pat_fuel_irrelevant (body : Bytes) (fuel : Nat) (h : body.length < fuel) :
+    patPrograms fuel body = patProgramsAll body ∧ patPrograms fuel body = patPrograms (fuel + 1) body := by
+  unfold patProgramsAll
+  rw [patPrograms_eq fuel body h, patPrograms_eq _ body (Nat.lt_succ_self _),
+    patPrograms_eq (fuel + 1) body (by omega)]
+  exact ⟨rfl, rfl⟩
+
+/-- `StreamInfoIter`: the same.  `pmtStreams` calls `streamIter` with `length + 1`. -/
+theorem stream_iter_fuel_irrelevant (buf : Bytes) (fuel : Nat) (h : buf.length < fuel) :
+    streamIter fuel buf = streamIter (buf.length + 1) buf ∧ streamIter fuel buf = streamIter (fuel + 1) buf := by
+  rw [streamIter_eq fuel buf h, streamIter_eq _ buf (Nat.lt_succ_self _),
+    streamIter_eq (fuel + 1) buf (by omega)]
+  exact ⟨rfl, rfl⟩
+
+/-- the hypothesis is needed, and exhaustion is silent: with too little fuel the model returns a
+proper prefix, still as `R.ok` -/
+example : patPrograms 1 [0, 1, 0xe1, 0x00, 0, 2, 0xe1, 0x01] = .ok [.program 1 0x100]
+    ∧ patProgramsAll [0, 1, 0xe1, 0x00, 0, 2, 0xe1, 0x01] = .ok [.program 1 0x100, .program 2 0x101] :=
+  ⟨rfl, rfl⟩
+example : streamIter 1 (pmtExample.drop 4) = .ok [⟨0x1b, 0x100, []⟩] := rfl
+example : patPrograms 1000 [0, 1, 0xe1, 0x00, 0, 2, 0xe1, 0x01] = patProgramsAll [0, 1, 0xe1, 0x00, 0, 2, 0xe1, 0x01] :=
+  (pat_fuel_irrelevant _ 1000 (by decide)).1
 
 /-! ### non-vacuity -/
 
